@@ -32,9 +32,13 @@ def run(c, p):
 def sym(E, p, kf):
     import z3
     from symx import specs
-    n = E.concretize(E.int("n", 1, p["n"]))
-    keys = [E.int(f"k{i}", -KB, KB) for i in range(n)]
-    if n > 1:
+    n = E.concretize(E.int("n", p.get("nmin", 1), p["n"]))
+    KB = p.get("kb", globals()["KB"])
+    if p.get("fixed_keys"):
+        keys, n = list(p["fixed_keys"]), len(p["fixed_keys"])      # larger batches over a concrete key set: bucket layout fixed, samples symbolic
+    else:
+        keys = [E.int(f"k{i}", -KB, KB) for i in range(n)]
+    if n > 1 and not p.get("fixed_keys"):
         E.assume(z3.Distinct(*keys))
     mod = E.choose("mod", list(range(1, p["modmax"] + 1)) + ([None] if p.get("defaultmod", True) else []))
     if p["init"] == "default":
@@ -49,6 +53,8 @@ def sym(E, p, kf):
     for b in range(p["batches"]):
         ns = E.concretize(E.int(f"ns{b}", 0, p["ns"]))
         batches.append([E.int(f"s{b}_{i}", -KB, KB) for i in range(ns)])
+        if p.get("ns_exact"):
+            E.assume(z3.BoolVal(ns == p["ns"]))
     c = dict(keys=keys, mod=mod, init=init, batches=batches)
     got = outcome(lambda: run(c, p))
     case = dict(p=p, c=c)
@@ -81,6 +87,10 @@ def jobs(tier, seed):
         out.append(dict(n=2, modmax=2, ns=1 if q else 2, batches=2, init=init, defaultmod=not q))
     out.append(dict(n=2, modmax=2, ns=2, batches=1, init="default", aslist=True))
     out.append(dict(n=1, modmax=2, ns=3, batches=1, init="default"))
+    # concrete key sets (3-4 keys, with and without bucket collisions under the moduli 1..7 and the default), symbolic samples around them
+    for fk, init in (([1, 2, 3], "default"), ([8, 1, 15], "array"), ([3, -4, 10, 5], "scalar")):
+        out.append(dict(n=len(fk), fixed_keys=fk, kb=16, modmax=7, ns=3 if q else 4, batches=1, init=init))
+    out.append(dict(n=3, fixed_keys=[1, 2, 3], kb=9, modmax=7, ns=2, batches=2, init="default"))
     if not q:
         out.append(dict(n=3, modmax=2, ns=2, batches=1, init="default"))
         out.append(dict(n=2, modmax=2, ns=3, batches=1, init="array"))
